@@ -31,6 +31,7 @@ RULE = ('scenarios = 2 or 3 calls (equal and different arguments) on shared modu
 ASSUMPTIONS = ['interleavings are explored at athlib source-line granularity with at most two forced pre-emptions (three threads: '
                'drawn); switches inside a single line or inside json / jsonschema internals are out of reach',
                'a 50 ms watchdog releases all threads when the token holder blocks on a lock; it can only change the schedule']
+RULE = RULE + '; scenarios cover every scoring system and helper, calls that raise, every pair of different functions per shared grader and a cache hit on the newest entry; all body x body double pre-emptions of the two entered public functions'
 
 GENDERS = 'mf'
 
